@@ -49,13 +49,13 @@ func faultErr(kind, op string) error {
 type c11Server struct {
 	holdReplies chan struct{} // when set, replies to calls wait until it is closed
 	held        chan struct{} // signalled when a reply is being held
-	dropFrom    int    // connections with index >= dropFrom are dropped by the server (-1: never)
-	dropKind string // on-accept | after-header | after-request
-	mu       sync.Mutex
-	counts   map[string]int // transmissions per identifier
-	replies  int
-	closeAt  int // close the connection right after the n-th reply (0 = never)
-	srvConns []*memnet.Conn
+	dropFrom    int           // connections with index >= dropFrom are dropped by the server (-1: never)
+	dropKind    string        // on-accept | after-header | after-request
+	mu          sync.Mutex
+	counts      map[string]int // transmissions per identifier
+	replies     int
+	closeAt     int // close the connection right after the n-th reply (0 = never)
+	srvConns    []*memnet.Conn
 }
 
 func (s *c11Server) serve(c *memnet.Conn, idx int) {
